@@ -79,7 +79,7 @@ def confirm(job, kind, msg, vals, replay_path):
         except subprocess.TimeoutExpired:
             return 'timeout', '', ''
     rc, out, err = runit([exe])
-    if kind in ('assert', 'assert-band'):
+    if kind.startswith('assert'):
         ok = ('ASSERT-FAIL ' + msg) in out
         return ok, 'native run %s the CHECK failure' % ('reproduces' if ok else 'does not reproduce')
     if kind == 'termination':
@@ -168,12 +168,16 @@ def main():
         for (kind, msg, where, model, dec) in R['violations']:
             site = where.split(' <- ')
             sitefn = next((x for x in site if 'harness' not in x and not x.startswith('[')), site[0] if site else '')
-            fp = (kind, msg if kind.startswith('assert') else msg.split(':')[0][:80], sitefn if not kind.startswith('assert') else '')
+            fp = ('assert' if kind.startswith('assert') else kind, msg if kind.startswith('assert') else msg.split(':')[0][:80], sitefn if not kind.startswith('assert') else '')
             byfp.setdefault(fp, []).append((kind, msg, where, model))
         for fp, items in byfp.items():
             kind, msg, where, _ = items[0]
             confirmed = None; detail = ''
-            for (k_, m_, w_, model) in items[:4]:
+            # candidates whose model makes the path certain come first; several are tried before giving up
+            items.sort(key=lambda it: {'assert': 0, 'assert-bandpath': 1, 'assert-band': 2}.get(it[0], 0))
+            kind = items[0][0]
+            step_ = max(1, len(items) // 24)
+            for (k_, m_, w_, model) in (items[:8] + items[8::step_])[:32]:
                 if model is None: continue
                 vals = [(n, k, Fraction(fr)) for (n, k, fr) in model]
                 h = hashlib.sha1(('%s|%s|%s' % (job.name, fp, vals)).encode()).hexdigest()[:12]
